@@ -321,10 +321,10 @@ Section FileRefine.
   Lemma fstore_linked : forall s a b, link <> LNone ->
     fstore layout ext link s a b =
     match mono b with Some c => fstore_mono ext link s (loc a) b c | None => fstore_plain s (loc a) b end.
-  Proof. intros s a b H. unfold fstore. destruct link; [contradiction | reflexivity | reflexivity]. Qed.
+  Proof. intros s a b H. unfold fstore, fstore_at. destruct link; [contradiction | reflexivity | reflexivity]. Qed.
 
   Lemma fstore_unlinked : forall s a b, link = LNone -> fstore layout ext link s a b = fstore_plain s (loc a) b.
-  Proof. intros s a b H. unfold fstore. rewrite H. reflexivity. Qed.
+  Proof. intros s a b H. unfold fstore, fstore_at. rewrite H. reflexivity. Qed.
 
   (* second step on a state s1 in which the single-colour file exists *)
   Definition link_step (s1 : fs) (p : path) (c : Z) : fs :=
@@ -496,3 +496,78 @@ Section FileRefine.
     - intros a _. reflexivity.
   Qed.
 End FileRefine.
+
+(* ------------------------------------------------------------------ calls through a re-used Tile object *)
+Section TileObject.
+  Variable layout : layout_fun.
+  Variable ext : string.
+  Variable link : link_mode.
+
+  Notation loc := (floc layout ext).
+  Notation step := (tcall_step layout ext link).
+
+  Definition tile_at (t : tile) (a : addr) : Prop :=
+    t_coord t = (ax a, ay a, az a) /\ t_loc t = Some (loc a).
+
+  (* the first call that needs the location fixes it from the dimensions of that call *)
+  Lemma first_call_fixes_location : forall x y z d,
+    t_location layout ext (new_tile x y z) d =
+    (mkTile (x, y, z) (Some (loc (mkAddr x y z d))) None false, loc (mkAddr x y z d)).
+  Proof. reflexivity. Qed.
+
+  (* afterwards the dimensions of a call are ignored: the object stays at its address *)
+  Lemma location_kept : forall t a d, tile_at t a -> t_location layout ext t d = (t, loc a).
+  Proof. intros t a d [_ H]. unfold t_location. rewrite H. reflexivity. Qed.
+
+  Lemma step_keeps_address : forall s t a c, tile_at t a -> tile_at (snd (fst (step s t c))) a.
+  Proof.
+    intros s t a c H. pose proof H as [Hc Hl]. destruct c as [d|d|d b|d]; cbn [tcall_step].
+    - destruct (t_src t); [exact H|]. rewrite (location_kept t a d H).
+      destruct (fs_read s (loc a)); cbn [fst snd]; [split; assumption | exact H].
+    - destruct (t_src t); [exact H|]. rewrite (location_kept t a d H). exact H.
+    - cbn [t_stored]. destruct (t_stored t); cbn [fst snd]; [split; assumption|].
+      rewrite (location_kept _ a d); [cbn [fst snd]; split; assumption | split; assumption].
+    - rewrite (location_kept t a d H). exact H.
+  Qed.
+
+  (* a store / remove / load through the object acts on the address of the object, whatever dimensions are passed *)
+  Theorem object_store_address : forall s t a d b, tile_at t a -> t_stored t = false ->
+    fst (fst (step s t (TStore d b))) = fstore layout ext link s a b.
+  Proof.
+    intros s t a d b H Hs. cbn [tcall_step t_stored]. rewrite Hs.
+    rewrite (location_kept _ a d); [reflexivity|]. destruct H. split; assumption.
+  Qed.
+
+  Theorem object_remove_address : forall s t a d, tile_at t a ->
+    fst (fst (step s t (TRemove d))) = fs_del s (loc a).
+  Proof. intros s t a d H. cbn [tcall_step]. rewrite (location_kept t a d H). reflexivity. Qed.
+
+  Theorem object_load_address : forall s t a d, tile_at t a -> t_src t = None ->
+    snd (step s t (TLoad d)) = Some (is_some (fload layout ext s a)) /\
+    t_src (snd (fst (step s t (TLoad d)))) = fload layout ext s a.
+  Proof.
+    intros s t a d H Hs. cbn [tcall_step]. rewrite Hs, (location_kept t a d H). unfold fload.
+    destruct (fs_read s (loc a)); cbn [fst snd t_src is_some]; split; try reflexivity. exact Hs.
+  Qed.
+
+  (* the flow of the tile manager for a single tile: the tile object was looked up with the dimensions of the
+     request (miss), then it is stored WITHOUT dimensions (TileCreator._create_single_tile): the store lands at the
+     address with the dimensions of the request. *)
+  Theorem lookup_then_store_without_dimensions : forall s x y z d b,
+    fs_read s (loc (mkAddr x y z d)) = None ->
+    let '(s1, t1, r1) := step s (new_tile x y z) (TLoad d) in
+    r1 = Some false /\
+    fst (fst (step s1 t1 (TStore [] b))) = fstore layout ext link s (mkAddr x y z d) b.
+  Proof.
+    intros s x y z d b Hm. cbn [tcall_step new_tile t_src]. rewrite first_call_fixes_location. rewrite Hm.
+    split; [reflexivity|]. apply object_store_address; [split; reflexivity | reflexivity].
+  Qed.
+End TileObject.
+
+Example tile_object_example :
+  tcall_run tile_location_tc "png" LNone [] (new_tile 3 4 2)
+            [TLoad (mk_dims [("time", "a")%string]); TStore [] [1; 2]; TCached (mk_dims [("time", "b")%string]); TRemove []] =
+  let p := file_key tile_location_tc "png" (A 3 4 2 [("time", "a")%string]) in
+  [(Some false, Some p, None, false); (None, Some p, Some [1; 2], true);
+   (Some true, Some p, Some [1; 2], true); (None, Some p, Some [1; 2], true)].
+Proof. vm_compute. reflexivity. Qed.
